@@ -362,6 +362,9 @@ def run(pid: str, tier: str, replay: str | None, t0: float) -> int:
     for q, r in failing_support:
         print(f"NOTE: supporting obligation of another property not discharged: {r['name']} [{r['status']}] tags={r['tags']}")
     rc = 0
+    if unreachable and (violations or bad_scans or bad_lemmas or bad_extra):
+        for q, err in unreachable:
+            print(f"NOTE: {q} is outside the verifier's reach on this tree ({err[:200]}); its obligations are undecided")
     if unreachable and not (violations or bad_scans or bad_lemmas or bad_extra):
         # bounded stand-in: the real functions under the contract monitors over the enumerated scenarios
         for q, err in unreachable:
